@@ -11,6 +11,7 @@ import types
 import re as _re
 
 from . import core, values, symre
+import codecs as _codecs
 from .values import SymStr, SymChar, SymInt, SymBytes, lift, ProxyLeak
 
 _real_isinstance = builtins.isinstance
@@ -395,6 +396,11 @@ def sx_callm(obj, name, *args, **kw):
             return idx[0]
         del obj[idx[0]]
         return None
+    if obj is _codecs and name in ("lookup", "getdecoder", "getencoder") and args and _real_isinstance(args[0], SymStr):
+        n = values.lower(args[0])
+        if not _real_isinstance(n, _real_str):
+            raise ProxyLeak("codecs.%s with a symbolic codec name" % name)
+        return getattr(obj, name)(n, *args[1:], **kw)
     return getattr(obj, name)(*args, **kw)
 
 
